@@ -420,4 +420,56 @@ theorem C12_hess_zero_rate (x0 x1 x2 x : ℝ) (y1 y2 : Dual2 ℝ) (h1 : y1.WF) (
         L2.den2]
       simp; ring
 
+
+section Routes
+variable {α : Type} [Add α] [Sub α] [Mul α] [Div α] [Neg α] [OfNat α 0] [OfNat α 1] [OfNat α 2] [Transc α]
+
+/-- a float-noded curve built directly at order `k` is the curve built at order 0 and then switched to `k`
+(the two construction routes of the library: the Python-facing constructor, and `CurveDF::try_new` followed by
+`set_ad_order`) -/
+theorem C12_construction_routes_agree (nodes : List (Int × Number α)) (interp : Interp) (ad : ADOrder) (id : String)
+    (base : Option α) (hf : ∀ p ∈ nodes, ∃ x, p.2 = Number.f64 x) :
+    Curve.new nodes interp ad id base = (Curve.new nodes interp .zero id base).setAdOrder ad := by
+  -- the sorted values are floats
+  have hs : ∃ xs : List α, (sortByKey nodes).map Prod.snd = xs.map Number.f64 := by
+    have hall : ∀ p ∈ sortByKey nodes, ∃ x, p.2 = Number.f64 x :=
+      fun p hp => hf p ((perm_sortByKey nodes).subset hp)
+    generalize sortByKey nodes = l at hall
+    induction l with
+    | nil => exact ⟨[], rfl⟩
+    | cons p ps ih =>
+      obtain ⟨x, hx⟩ := hall p List.mem_cons_self
+      obtain ⟨xs, hxs⟩ := ih (fun q hq => hall q (List.mem_cons_of_mem _ hq))
+      exact ⟨x :: xs, by simp [hx, hxs]⟩
+  obtain ⟨xs, hxs⟩ := hs
+  have hlen : (sortByKey nodes).length = xs.length := by
+    have := congrArg List.length hxs; simpa using this
+  unfold Curve.new Curve.setAdOrder
+  simp only [hxs, hlen]
+  cases ad with
+  | zero =>
+    simp only
+  | one =>
+    simp only [List.length_map]
+    congr 2
+    rw [zip_range_map_f64 xs _ (fun p => Dual.new p.2 [(getVariableTags id xs.length).getD p.1 ""])
+      (fun i x => rfl)]
+    rw [zip_range_map_f64 xs (fun p => p.2.toF64) (fun p => p.2) (fun i x => rfl)]
+    have e1 : ((List.range xs.length).zip xs).map (fun p => p.2) = xs := by
+      rw [List.map_snd_zip]; simp
+    have e2 : ((List.range xs.length).zip (xs.map Number.f64)).length = xs.length := by simp
+    rw [e1, e2, hlen]
+  | two =>
+    simp only [List.length_map]
+    congr 2
+    rw [zip_range_map_f64 xs _ (fun p => Dual2.new p.2 [(getVariableTags id xs.length).getD p.1 ""])
+      (fun i x => rfl)]
+    rw [zip_range_map_f64 xs (fun p => p.2.toF64) (fun p => p.2) (fun i x => rfl)]
+    have e1 : ((List.range xs.length).zip xs).map (fun p => p.2) = xs := by
+      rw [List.map_snd_zip]; simp
+    have e2 : ((List.range xs.length).zip (xs.map Number.f64)).length = xs.length := by simp
+    rw [e1, e2, hlen]
+
+end Routes
+
 end Rateslib
